@@ -1,5 +1,5 @@
 SPECIFICATION FairSpec
-CONSTANTS Cap = 1  Payload = 2  Variant = "run_process"  Drain = TRUE  CloseAll = TRUE  Timeout = TRUE  Escalate = TRUE  DtorSig = "KILL"  FirstName = "none"  ReapOnAssign = TRUE  ProgName = "hang"
+CONSTANTS Cap = 3  Payload = 2  Variant = "communicate"  Drain = TRUE  CloseAll = TRUE  Timeout = FALSE  Escalate = TRUE  DtorSig = "KILL"  FirstName = "ignhang"  ReapOnAssign = FALSE  ProgName = "cat"
 CONSTANT Prog <- MCProg
 CONSTANT FirstProg <- MCFirst
 INVARIANTS OutputComplete StatusExact Reaped AllFdsClosed StdinDelivered NoThrowUnlessEpipe TimeoutEnds
